@@ -249,3 +249,66 @@ def compile_captured(src, opts: dict):
     finally:
         G.assign_registers = orig
     return res, cap
+
+
+# ---------------------------------------------------------------------------------------------
+# program streams shared by the whole-program checks
+# ---------------------------------------------------------------------------------------------
+
+def profile(kind: str):
+    """generator profiles.  `core`: no functions; `funcs`: out-of-line functions; every profile avoids the trigger
+    pattern of every known finding (progen.Profile defaults), so a failure in these streams is new by construction."""
+    P = progen.Profile
+    if kind == "core":
+        return P(max_stmts=6, functions=False)
+    if kind == "funcs":
+        return P(max_stmts=5, functions=True)
+    if kind == "calls":
+        return P(max_stmts=4, functions=True, call_heavy=True, loops=True, for_list=False, index_lists=False, max_depth=1)
+    if kind == "terminating":
+        return P(max_stmts=5, functions=True, terminating_main_with_functions=True)
+    raise ValueError(kind)
+
+
+QUICK_BUDGET = dict(fuel=300, steps=4000)
+THOROUGH_BUDGET = dict(fuel=1500, steps=20000)
+
+
+def gen_program(r, kind):
+    g = progen.Gen(r, profile(kind))
+    prog = g.program()
+    return g, prog, progen.print_program(prog), progen.pool_of(g)
+
+
+def judge_equiv(drv, prog, src, pool, opts, env_seeds, budget):
+    """compile `src` with the real transpiler and compare with the reference semantics on each environment.
+    Returns (status, detail): status in {"ok", "error", "bad", "outside"}"""
+    res = compile_real(src, opts)
+    if "error" in res:
+        return "error", res["error"]["description"]
+    worst = None
+    for es in env_seeds:
+        v = equiv(drv, prog, res["code"], pool, seed=es, **budget)
+        if v["verdict"] == "src-undefined":
+            return "outside", v
+        if v["verdict"] in BAD_VERDICTS:
+            # effects with non-finite values are outside the compared domain (NaN has no order)
+            if v["verdict"] == "trace-mismatch" and nonfinite_in_trace(drv, prog, pool, es, budget["fuel"]):
+                continue
+            return "bad", dict(v, env_seed=es, code=res["code"])
+        worst = v
+    return "ok", worst
+
+
+def shrink_failure(drv, prog, pool, opts, env_seed, budget, verdict):
+    def still(p):
+        try:
+            src = progen.print_program(p)
+        except Exception:
+            return False
+        st, d = judge_equiv(drv, p, src, pool, opts, [env_seed], budget)
+        return st == "bad" and d["verdict"] == verdict
+    try:
+        return shrink(prog, still, max_rounds=120)
+    except Exception:
+        return prog
